@@ -8,7 +8,9 @@ import (
 	"hash/fnv"
 	"os"
 	"strconv"
+	"sync/atomic"
 	"testing"
+	"time"
 
 	"pgregory.net/rapid"
 	"verif/internal/evid"
@@ -85,6 +87,22 @@ func CheckSteps(t *testing.T, base, steps int, prop func(*rapid.T)) {
 	defer func() { _ = flag.Set("rapid.steps", "30") }()
 	Check(t, base, prop)
 }
+
+var expired int32
+
+// Patience bounds a wait that ends in a failure when it expires. The first such expiry in a process is a failure of the
+// run whatever happens next; rapid then replays dozens of shrink candidates, each of which would sit through the same
+// wait, and its time limit is only looked at between passes. After TimedOut() has been called waits are cut to 700 ms:
+// that only affects which reproduction of an already failed run is reported.
+func Patience(d time.Duration) time.Duration {
+	if atomic.LoadInt32(&expired) != 0 && d > 700*time.Millisecond {
+		return 700 * time.Millisecond
+	}
+	return d
+}
+
+// TimedOut records that a Patience wait expired (call it right before failing).
+func TimedOut() { atomic.StoreInt32(&expired, 1) }
 
 // Main is the TestMain body shared by the harness packages.
 func Main(m *testing.M) {
